@@ -53,6 +53,15 @@ CLAIMS = {
              'values remain readable unless strict.',
         note='Ground obligations over a finite domain (3 endings x 2 x 5 object kinds x 15 operations + reads). Entry points outside the listed operations are '
              'not covered. In-memory SQLite provides the real sessions that leave the objects behind.'),
+    'C06': dict(
+        text='Proof for ALL strings that inline SQL string literals (Value / SQLiteValue / PGValue / MySQLValue, five paramstyles, incl. the driver percent '
+             'pass), quoted identifiers (quote_name, both quote characters, dotted names) and LIKE patterns built by contains / startswith / endswith '
+             '(constant and expression items, four dialects, explicit or default escape) denote exactly the original value: the real functions run on a '
+             'symbolic string, the result is normalised to prefix + Hom(replace chain) + suffix, per-character local conditions against reference lexers are '
+             'discharged by z3, and a Lean 4 lemma (checked every setup) lifts them to all strings. MOD percent doubling proved per style. Placeholder-to-'
+             'argument binding (SQLBuilder.__init__/make_param/adapter/Param.__str__) is BOUNDED (<= 4 occurrences, all partitions) and counted separately.',
+        note='Trusted: reference lexers (SQL literal and LIKE tokenizer validated against sqlite3 every run; MySQL backslash mode and PostgreSQL/MySQL default LIKE '
+             'escape from the manuals), str.replace with 1-char needle is char-wise, SQL REPLACE equals Python replace, Lean kernel. Known finding: MySQL backslash in literals.'),
 }
 
 _NOT_BUILT = 'within reach of the technique per DESIGN.md, check not built yet'
